@@ -205,7 +205,13 @@ def load_findings(pid):
             data = json.load(f)
     except FileNotFoundError:
         return []
-    return [e for e in data.get("findings", []) if e.get("property") == pid]
+    out = [e for e in data.get("findings", []) if e.get("property") == pid]
+    # per-property staging files (merged into known_findings.json before registration)
+    extra = os.path.join(VERIF, "known_findings.d", pid + ".json")
+    if os.path.exists(extra):
+        with open(extra) as f:
+            out += [e for e in json.load(f).get("findings", []) if e.get("property") == pid]
+    return out
 
 
 def match_known(mod, findings, subname, spec, viol):
